@@ -54,6 +54,31 @@ def _truth_tests(f):
     return out
 
 
+def _side_tokens(node):
+    import re
+
+    toks = []
+    for n in ast.walk(node):
+        name = None
+        if isinstance(n, ast.Name):
+            name = n.id
+        elif isinstance(n, ast.Attribute):
+            name = n.attr
+        elif isinstance(n, ast.keyword) and n.arg:
+            name = n.arg
+        if name:
+            parts = name.split("_")
+            if "left" in parts:
+                toks.append(("L", name))
+            if "right" in parts:
+                toks.append(("R", name))
+    return toks
+
+
+def _mirror(t: str) -> str:
+    return t.replace("left", "\0").replace("right", "left").replace("\0", "right")
+
+
 def anchor_files(prop: str) -> list[str]:
     p = os.path.join(os.path.dirname(os.path.dirname(os.path.abspath(__file__))), "properties.jsonl")
     with open(p) as f:
@@ -100,6 +125,39 @@ def check(ctx):
                 if isinstance(st, ast.Assign) and len(st.targets) == 1 and isinstance(st.targets[0], ast.Name) and st.targets[0].id in nonep and isinstance(st.value, ast.BoolOp) and isinstance(st.value.op, ast.Or) and isinstance(st.value.values[0], ast.Name) and st.value.values[0].id == st.targets[0].id:
                     pass  # the `x = x or d` spelling is surveyed separately (see OR_OK)
     ctx.count("none_default_rebinds", n)
+    # ---------------- SIDE.consistent: code that treats a left and a right input comes in mirrored pairs.
+    # A call that names one side everywhere except in ONE identifier, while the function also contains
+    # the exact mirror image of its corrected form, is a contradiction between the two halves (no such
+    # call exists in the package today).
+    for rel in anchor_files(ctx.prop):
+        if not model.exists(rel):
+            continue
+        mod = model.module(rel)
+        for qn, f in mod.functions():
+            calls_ = [c for c in ast.walk(f) if isinstance(c, ast.Call)]
+            if not calls_:
+                continue
+            texts = None
+            for c in calls_:
+                toks = _side_tokens(c)
+                L = [t for k, t in toks if k == "L"]
+                R = [t for k, t in toks if k == "R"]
+                if not L or not R or len(L) + len(R) < 3:
+                    continue
+                minority = L if len(L) < len(R) else R
+                if len(minority) != 1:
+                    continue
+                if texts is None:
+                    texts = {unparse(x) for x in calls_}
+                fixed = unparse(c).replace(minority[0], _mirror(minority[0]))
+                if _mirror(fixed) in texts:
+                    ctx.ob(
+                        "SIDE.consistent",
+                        c,
+                        f"{qn}: `{unparse(c)[:70]}` names one side throughout",
+                        False,
+                        f"`{minority[0]}` belongs to the other side, and the function contains the mirror image `{_mirror(fixed)[:70]}` of the corrected call: one input is processed with the other input's key/flag",
+                    )
     # ---------------- TRUTH.numeric-param
     from .srcmodel import param_names
     from .dataflow import reaching_of
